@@ -8,8 +8,8 @@ LEVEL_NOTE = ("C07 (partial w.r.t. floating-point rounding): theorems over exact
               "log/exp/log10 are symbolic nodes over exact sufficient statistics, evaluated with mpmath; tie = history "
               "correspondence (state after every operation, compute results) and functional correspondence on float64, "
               "exactly representable, well-conditioned inputs with tolerance 2^-40 (2^-17 where the implementation itself "
-              "computes in float32: 1-D MSE/R2 class states, Wasserstein1D without explicit weights); value semantics for "
-              "merge_state (sources adopted by reference are separated by a deep copy; the aliasing itself is probed and reported)")
+              "computes in float32: 1-D MSE/R2 class states, Wasserstein1D without explicit weights); plain history streams "
+              "(no isolation of merge sources: /repo 5bc2ee2 clones adopted tensors); a non-interference probe re-checks that")
 
 NAMES = ["Mean", "Sum", "Max", "Min", "Throughput", "Cat", "AUC", "Covariance", "MeanSquaredError", "R2Score",
          "Wasserstein1D", "PeakSignalNoiseRatio", "BinaryNormalizedEntropy", "Perplexity"]
@@ -17,6 +17,6 @@ NAMES = ["Mean", "Sum", "Max", "Min", "Throughput", "Cat", "AUC", "Covariance", 
 
 def run(ctx):
     ents = [entry(n) for n in NAMES]
-    rs.hist_corr(ctx, ents)
+    streams.hist_corr(ctx, ents=ents, nhist=ctx.n(14, 150))
     streams.fn_corr(ctx, ents=ents)
     rs.alias_probe(ctx, ents)
